@@ -42,6 +42,8 @@ type UDPNet struct {
 	// LossDen > 0: a delivered datagram is dropped with probability 1/LossDen,
 	// DupDen likewise for duplication.
 	LossDen, DupDen int
+	// DupDir, when set, restricts duplication to that direction ("c2s" or "s2c").
+	DupDir string
 	// Reorder: offer every in-flight datagram (not only the oldest per direction).
 	Reorder bool
 	// DropNth[dir][n]: the n-th datagram (0-based) of that direction is dropped.
@@ -182,7 +184,7 @@ func (n *UDPNet) deliver(p pkt) {
 		return
 	}
 	copies := 1
-	if n.DupDen > 1 && n.sim.Choose(n.DupDen) == n.DupDen-1 {
+	if n.DupDen > 1 && (n.DupDir == "" || n.DupDir == p.dir) && n.sim.Choose(n.DupDen) == n.DupDen-1 {
 		n.sim.Fault("datagram-dup")
 		copies = 2
 	}
@@ -289,7 +291,7 @@ func (n *UDPNet) CloseAll() {
 // Heal ends every loss, silence and mangling.
 func (n *UDPNet) Heal() {
 	n.mu.Lock()
-	n.LossDen, n.DupDen = 0, 0
+	n.LossDen, n.DupDen, n.Reorder = 0, 0, false
 	n.DropNth = map[string]map[int]bool{}
 	n.SilenceFrom = map[string]int{}
 	n.Mangle = nil
